@@ -14,7 +14,9 @@ EXPL = ("R02.1 escaping taint: every string that reaches a raw append (push_raw_
         "bracket or a known-empty buffer, no element directly after an element. R02.3 no byte is handed to the io::Write before the "
         "validation verdict. R02.4 the last buffer of every vectored write ends with the newline literal. R02.5 (the premise of "
         "R02.2) every output buffer is reset before its first use in a call on all paths - also after a call that ended in an I/O or "
-        "validation error - so a record never starts from the leftovers of a failed one (same analysis as R14.2). Not decided: that the "
+        "validation error - so a record never starts from the leftovers of a failed one (same analysis as R14.2). R02.7 every offset later used to splice or slice an output buffer is computed from lengths of "
+        "encoded buffers or literals, never from the length of a caller-provided string; R02.6 the sanitizer itself (JsonString::json_string) hands the caller's text to the serde_json escaper exactly once on "
+        "every path and never appends it raw. Not decided: that the "
         "concatenation of the runtime-built prefixes nests correctly for every configuration.")
 CR = "metrique_writer_format_emf"
 
@@ -28,6 +30,33 @@ SUBSTRING_ADAPTERS = ("core::hint::must_use", "core::str::<impl str>::strip_suff
                       "metrique_writer_format_emf::buf::PrefixedStringBuf::as_str")
 MULTI = {"core::option::Option::<T>::unwrap_or": (0, 1)}
 INT_TYPES = ("u8", "u16", "u32", "u64", "u128", "usize", "i8", "i16", "i32", "i64", "i128", "isize", "char")
+
+
+def send_bodies(F):
+    """local functions that hand bytes to an io::Write with vectored writes (role of `write_all_vectored`, whatever it is called)"""
+    c_ = getattr(F, "_send_bodies", None)
+    if c_ is None:
+        c_ = {b.def_ for b in F.all_bodies(CR) if any(c.is_trait_method("Write", "write_vectored") for c in b.calls())}
+        F._send_bodies = c_
+    return c_
+
+
+def is_send(F, c):
+    """call site of such a function"""
+    from mq.util import local_callee_bodies as _lcb
+    return any(sb.def_ in send_bodies(F) for sb in _lcb(F, c))
+
+
+def buffer_field(F):
+    """predicate (adt, field) -> the field is an output buffer or a map of per-set buffers (by type, not by name)"""
+    def pred(adt, fn):
+        a = F.adts.get(adt) or {}
+        for v in a.get("variants", []):
+            for f in v["fields"]:
+                if f["name"] == fn:
+                    return "PrefixedStringBuf" in f["ty"] or "HashMap<" in f["ty"]
+        return False
+    return pred
 
 
 def in_scope(b):
@@ -346,8 +375,84 @@ def run(ctx):
     # ------------------------------------------------------------------ R02.5 premise of the typestate: buffers are clean at the start of a call
     import rules.c14 as c14
     before = len(ctx.instances)
-    c14.run(ctx, only_fields=("string_fields_buf", "fields_buf", "metrics_buf", "decl_buf", "dimension_set_map", "counts_buf", "dimensions_buf"), rule_prefix="R02.5")
+    c14.run(ctx, only_fields=buffer_field(F), rule_prefix="R02.5")
     ctx.floor("R02.5", "output buffers checked for reset-before-use", len([i for i in ctx.instances[before:] if i["rule"] == "R02.5" and "clean-at-first-use" in i["instance"]]), 7)
+
+    # ------------------------------------------------------------------ R02.6 the one string sanitizer has no bypass
+    san = [b for b in F.all_bodies(CR) if b.name == "json_string" and b.impl and (b.impl.get("trait") or "").endswith("JsonString") and in_scope(b)]
+    ctx.floor("R02.6", "JsonString::json_string implementations", len(san), 2)
+    n_esc = 0
+    for b in san:
+        pr = Prov(b)
+        key = fnkey(b)
+        trusted = [c for c in b.calls() if (c.def_.startswith("serde_json::ser::to_") or c.def_.startswith("serde_json::to_") or "format_escaped_str" in c.def_ or
+                                            c.is_trait_method("JsonString", "json_string")) and
+                   any(any(x[0] == "arg" and x[1] == 2 for x in pr.operand(a)) for a in c.args)]
+        n_esc += sum(1 for c in trusted if "serde_json" in c.def_)
+        ok, why = exactly_once(b, [c.bb for c in trusted])
+        ctx.check(ok, "R02.6", key + "#escaped-exactly-once", loc(b),
+                  "the caller's text does not pass through the JSON escaper (serde_json / the String implementation) exactly once on every path: %s - "
+                  "a path around it copies the text raw (a backslash or quote would change or break the record)" % why,
+                  "value -> %s on every path" % [c.name for c in trusted])
+        raw = [c for c in b.calls() if c not in trusted and len(c.args) >= 2 and any(x[0] == "arg" and x[1] == 1 for x in pr.operand(c.args[0])) and
+               any(any(x[0] == "arg" and x[1] == 2 for x in pr.operand(a)) for a in c.args[1:])]
+        ctx.check(not raw, "R02.6", key + "#no-raw-append-of-value", loc(b, raw[0].bb if raw else None),
+                  "the sanitizer appends the caller's text to the output through %s, not through the escaper" % [c.name for c in raw])
+    ctx.floor("R02.6", "calls of the serde_json escaper inside the sanitizer", n_esc, 1)
+
+    # ------------------------------------------------------------------ R02.7 offsets into encoded text are measured on encoded text
+    # slots: usize fields whose value is used as a splice/slice offset of an output buffer
+    offs = set()
+    for b in F.all_bodies(CR):
+        if not in_scope(b):
+            continue
+        pr = None
+        for c in b.calls():
+            cand = []
+            # (a buffer's own prefix bookkeeping - truncate back to the prefix - measures the very text it holds and is not a splice)
+            if c.name in ("extend_from_within_range", "extend_from_within", "split_at") and len(c.args) >= 2:
+                cand = c.args[1:]
+            elif c.is_trait_method("Index", "index") and len(c.args) >= 2 and ("str" in (c.self_ty or "") or "String" in (c.self_ty or "")):
+                cand = c.args[1:]
+            for a in cand:
+                pr = pr or Prov(b)
+                for x in pr.operand(a):
+                    if x[0] in ("arg", "callf") and x[2] and isinstance(x[2][-1], str):
+                        # the field must be a usize field of a crate type
+                        fld = x[2][-1]
+                        if any(f["name"] == fld and f["ty"] == "usize" for ad in F.adts.values() if ad["crate"] == CR for v in ad["variants"] for f in v["fields"]):
+                            offs.add(fld)
+    ctx.floor("R02.7", "offset fields used to splice or slice an output buffer", len(offs), 1)
+    n_off = 0
+    for b in F.all_bodies(CR):
+        if not in_scope(b):
+            continue
+        pr = None
+        for i in b.live_blocks():
+            for st in b.stmts(i):
+                if st["k"] != "assign":
+                    continue
+                vals = []
+                if st["rv"]["k"] == "agg" and st["rv"].get("fields"):
+                    vals = [(f, o) for f, o in zip(st["rv"]["fields"], st["rv"]["ops"]) if f in offs]
+                elif st["lhs"].get("p") and st["lhs"]["p"][-1][0] == "f" and st["lhs"]["p"][-1][2] in offs and st["rv"]["k"] == "use":
+                    vals = [(st["lhs"]["p"][-1][2], st["rv"]["op"])]
+                for fld, o in vals:
+                    pr = pr or Prov(b, adapter_pred=lambda t: (t.get("callee") or {}).get("name") in ("index", "deref", "as_str", "as_ref", "borrow", "get", "unwrap", "expect", "first", "last"))
+                    n_off += 1
+                    raw = []
+                    for x in pr.operand(o):
+                        if x[0] == "call" and (b.term(x[1]).get("callee") or {}).get("name") == "len":
+                            ro = pr.operand(b.term(x[1])["args"][0])
+                            # measured on a caller-provided string (a field of the builder / a parameter) rather than on its encoded form
+                            if any(y[0] == "arg" for y in ro) and not any(y[0] == "call" and (b.term(y[1]).get("callee") or {}).get("name") in
+                                                                         ("encode", "json_string", "format", "to_string", "with_capacity", "new") for y in ro):
+                                raw.append(x[1])
+                    ctx.check(not raw, "R02.7", fnkey(b) + "#offset-measured-on-encoded-text(%s)" % fld, loc(b, i),
+                              "the offset `%s` into an output buffer is computed from the length of a caller-provided string (bb%s) instead of the length of its "
+                              "JSON-encoded form: for text that needs escaping the offset lands inside the encoded text and the spliced record is not valid JSON" % (fld, raw),
+                              "offset derives from lengths of encoded buffers / literals only")
+    ctx.floor("R02.7", "stores of splice offsets", n_off, 2)
 
     # ------------------------------------------------------------------ R02.4 line framing
     nw = 0
@@ -355,7 +460,7 @@ def run(ctx):
         if not in_scope(b):
             continue
         for c in b.calls():
-            if not (c.name == "write_all_vectored" and c.def_.startswith(CR)):
+            if not is_send(F, c):
                 continue
             nw += 1
             last = _last_buffer_of_vectored(b, c)
